@@ -34,6 +34,9 @@ impl ShardManager {
             let (shard, shared_state) =
                 Shard::spawn(id, shard_base_dir.clone(), shard_wal_dir).await;
 
+            #[cfg(sneldb_verif)]
+            crate::verif::register_shard(id, shard_base_dir.clone(), shared_state.clone());
+
             // Start background compactor
             start_background_compactor(
                 id as u32,
